@@ -40,11 +40,11 @@ def corpus():
     return docs
 
 
-def fresh(text, charset):
+def fresh(text, charset, exclude=None):
     env = dict(os.environ)
     env['PYTHONHASHSEED'] = str(random.randint(0, 1000))
     p = subprocess.run([core.PY, '-W', 'ignore', os.path.join(core.VERIF, 'harness', 'docrun.py')],
-                       input=json.dumps({'text': text, 'charset': charset}).encode(), capture_output=True, timeout=300, env=env)
+                       input=json.dumps({'text': text, 'charset': charset, 'exclude': exclude}).encode(), capture_output=True, timeout=300, env=env)
     try:
         return json.loads(p.stdout.decode())
     except Exception:  # noqa
@@ -61,9 +61,16 @@ def run(ctx, report):
         segs = docgen.envelope_doc(rng, d, icvn='00401', n_isa=rng.choice([1, 2]), max_groups=2, max_sets=2, max_body=4,
                                    faults=rng.choice([0.0, 0.3]), hl=True, lx=True)
         docs.append(('gen%d' % k, docgen.encode(segs, d, '\n')))
-    n_seq = 40 if ctx['tier'] == 'thorough' else 5
+    # variants whose verdict depends on the external-code parameter: an unknown state / an unknown zip code
+    import re as _re
+    extra = []
+    for name, text in docs:
+        if len(extra) < 4 and _re.search(r'N4\*[^*~]*\*[A-Z]{2}\*', text):
+            extra.append((name + '+badstate', _re.sub(r'(N4\*[^*~]*\*)[A-Z]{2}\*', r'\1QQ*', text, count=1)))
+    docs += extra
+    n_seq = 40 if ctx['tier'] == 'thorough' else 6
     report.rule = ('sequences of 2-10 documents (the repository\'s own test corpus of 834/835/837/270-style documents, valid and '
-                   'faulty, 4010 and 5010, plus generated envelopes) processed in ONE interpreter — fresh and reused params, the same '
+                   'faulty, 4010 and 5010, plus generated envelopes and variants with an unknown state code) processed in ONE interpreter — fresh and reused params, charset and exclude_external_codes varying from document to document, the same '
                    'document up to three times in a row — every output (verdict, 997/999 body, HTML body, XML, context-reader '
                    'segments, XML->X12) compared after masking timestamps/control numbers with the result of a FRESH interpreter '
                    '(random PYTHONHASHSEED).  Distinct = distinct (sequence position, document).')
@@ -78,20 +85,25 @@ def run(ctx, report):
         charset = rng.choice(['B', 'E'])
         history = []
         for (name, text) in seq:
-            key = (name, charset)
+            # the parameters may change from one document to the next (also on a reused params object)
+            exclude = rng.choice([None, None, 'states', 'states,zipcode'])
+            if rng.random() < 0.3:
+                charset = rng.choice(['B', 'E'])
+            key = (name, charset, exclude)
             if key not in baseline:
-                baseline[key] = fresh(text, charset)
-            got = docrun.run_all(text, charset, reuse_param=reuse)
+                baseline[key] = fresh(text, charset, exclude)
+            got = docrun.run_all(text, charset, reuse_param=reuse, exclude=exclude)
             want = baseline[key]
-            history.append(name)
-            report.case((s, len(history), name, charset))
+            history.append('%s[%s,%s]' % (name, charset, exclude))
+            report.case((s, len(history), name, charset, exclude))
+            report.count('exclude:%s' % exclude)
             report.count('docs')
             report.count('params:' + ('reused' if reuse is not None else 'fresh'))
             for field in ('verdict', 'ack', 'html', 'xml', 'context', 'back'):
                 if got.get(field) != want.get(field):
                     report.fail('C18:%s-depends-on-history:%s' % (field, name),
                                 'output "%s" of %s after processing %r differs from a fresh interpreter' % (field, name, history[:-1]),
-                                {'document': name, 'history': history[:-1], 'charset': charset, 'params_reused': reuse is not None},
+                                {'document': name, 'history': history[:-1], 'charset': charset, 'exclude': exclude, 'params_reused': reuse is not None},
                                 got=(got.get(field) or '')[:300], fresh=(want.get(field) or '')[:300])
                     break
         if s == 0:
